@@ -72,7 +72,7 @@ def parse_call(message):
 
 
 def run_worker(spec):
-    wall = float(spec['timeout']) * 2.0 + 90
+    wall = float(spec['timeout']) * 6.0 + 180     # generous: cpu-time budgets are enforced by CrossHair itself
     t0 = time.time()
     try:
         p = subprocess.run([PY, '-m', 'vf.worker', json.dumps(spec)], cwd=ROOT, env=ENV,
